@@ -819,6 +819,15 @@ def check_C11(tier, seed):
         # plus arbitrary inputs: the correspondence covers the required test on them too
         extra = stream_unpack(rnd, env, st, per_env // 2)
         c_out, m_out, bad, c_err, text = corr(run, ctx, env, lines + extra, 'c11')
+        # the verdict on a message must not depend on what other threads are parsing at the same time (the bookkeeping of the
+        # required fields is per call): the same cases on eight threads must give the sequential answers
+        rcj, j_out, j_err = run_driver(ctx.impl, text, 'c11j', pre_args=['-j', '8'])
+        tally['threaded_cases'] = tally.get('threaded_cases', 0) + len(j_out)
+        jbad = common.diff_lines(c_out, j_out)
+        if jbad and len(c_out) == len(lines) + len(extra):
+            i = jbad[0]
+            viol(run, 'oracle', 'a verdict differs when the same cases run on eight threads (required-field bookkeeping shared between calls?)\n--- schema + case\n%s%s\n--- sequential\n%s\n--- threaded\n%s\n'
+                 % (env.text(), (lines + extra)[i] if i < len(lines + extra) else '?', c_out[i][:1500] if i < len(c_out) else '<none>', j_out[i][:1500] if i < len(j_out) else '<none>'))
         if bad or len(c_out) != len(lines) + len(extra):
             if len(run.violations) < 3:
                 run.violation(report_disagreement(run, env.text(), lines + extra, c_out, m_out, bad, c_err,
@@ -1411,6 +1420,11 @@ def alloc_check(pid, tier, seed):
             viol(run, 'crash', 'the driver died while unpacking with a recording allocator\n--- schema\n%s--- stderr\n%s\n' % (env.text(), b_err[-3000:]))
             continue
         lines = list(base)
+        if pid == 'C07':
+            # memory also returns to the allocator when the call fails early: the first requests refused, on a few inputs
+            for (d, h) in inputs[:6]:
+                for k in (0, 1, 2):
+                    lines.append('UNPACKT %d %s %d' % (d, h, k))
         if pid == 'C08':
             lines = []
             for (d, h), o in zip(inputs, b_out):
